@@ -152,3 +152,43 @@ func firstN(s []string, n int) []string {
 	}
 	return s
 }
+
+// vacuityCorpus (thorough tier): every seeded change of the corpus that names the property is applied
+// to a scratch copy and must make a named obligation of THIS property fail; every behaviour-preserving
+// refactoring must leave all of them discharged. The outcome is evidence about the check, not about
+// /repo: it never turns into a VIOLATION line.
+func vacuityCorpus(verif, repo, prop string) []map[string]string {
+	data, err := os.ReadFile(filepath.Join(verif, "selftest", "corpus.json"))
+	if err != nil {
+		return nil
+	}
+	var corpus []mutantMeta
+	if json.Unmarshal(data, &corpus) != nil {
+		return nil
+	}
+	var out []map[string]string
+	for _, m := range corpus {
+		has := false
+		for _, p := range m.Props {
+			if p == prop {
+				has = true
+			}
+		}
+		if !has {
+			continue
+		}
+		one := m
+		one.Props = []string{prop}
+		if m.Kind != "refactor" && len(m.Props) > 1 {
+			one.Expect = "" // the expected obligation may belong to the other property
+		}
+		ok, detail := runMutant(verif, repo, one, nil, false)
+		st := "as-expected"
+		if !ok {
+			st = "NOT-as-expected"
+		}
+		fmt.Printf("CORPUS %s %-8s %-10s %s\n", st, m.Kind, m.ID, detail)
+		out = append(out, map[string]string{"id": m.ID, "kind": m.Kind, "outcome": st, "detail": detail, "note": m.Note})
+	}
+	return out
+}
